@@ -440,6 +440,24 @@ def o3(ctx):
     return obs
 
 
+RATE_NAMES = set()      # closure variables of throttle() that hold count / seconds (filled by o4)
+
+
+def _rate_names(ctx):
+    """Local names of recipes.throttle assigned `count / seconds` (possibly through float())."""
+    out = set()
+    f = ctx.func('recipes.throttle')
+    for n in ast.walk(f.node):
+        if isinstance(n, ast.Assign) and len(n.targets) == 1 and isinstance(n.targets[0], ast.Name) \
+                and isinstance(n.value, ast.BinOp) and isinstance(n.value.op, ast.Div):
+            names = {m.id for m in ast.walk(n.value) if isinstance(m, ast.Name)}
+            left = {m.id for m in ast.walk(n.value.left) if isinstance(m, ast.Name)}
+            right = {m.id for m in ast.walk(n.value.right) if isinstance(m, ast.Name)}
+            if 'count' in left and 'seconds' in right and names <= {'count', 'seconds', 'float'}:
+                out.add(n.targets[0].id)
+    return out
+
+
 def _is_refill(v, gv):
     """tokens + (now - last) * rate, modulo commutativity; returns (now value) or None."""
     if not (v.k == 'term' and v.a[0] == 'Add' and len(v.a[1]) == 2):
@@ -452,7 +470,7 @@ def _is_refill(v, gv):
         if not (y.k == 'term' and y.a[0] == 'Mult' and len(y.a[1]) == 2):
             continue
         for m, r in (y.a[1], y.a[1][::-1]):
-            if r.k in ('free', 'term') and (r.k != 'free' or r.a[0] == 'rate' or True):
+            if r.k in ('free', 'term') and (r.k != 'free' or r.a[0] in RATE_NAMES):
                 if m.k == 'term' and m.a[0] == 'Sub' and m.a[1][1] == last and m.a[1][0].k == 'ucall':
                     return m.a[1][0]
     return None
@@ -475,6 +493,10 @@ def _find_refill(trace, gv):
 @rule('O4', floor=5, title='throttle: refill by elapsed*rate, cap at count, spend exactly one token inside the block or wait outside it')
 def o4(ctx):
     f = ctx.func('recipes.throttle.<locals>.decorator.<locals>.wrapper')
+    RATE_NAMES.clear()
+    RATE_NAMES.update(_rate_names(ctx))
+    if not RATE_NAMES:
+        raise AnalysisError('O4: throttle() computes no count / seconds rate')
     res = {'refill': [True, None], 'spend-or-wait': [True, None], 'cap': [True, None], 'wait-outside': [True, None],
            'proceed-iff-spent': [True, None]}
     n_spend = n_wait = n_cap = 0
